@@ -151,8 +151,13 @@ class MoveProp(core.Prop):
                 ag = w.agent_list[aidx]
                 w.grid[i // cols, i % cols][ag.id] = ag
 
+    def extra_checks(self, tier, rng, report):
+        for what, desc in getattr(self, "_rt", []):
+            report.runtime_failure(what, desc)
+
     def cases(self, tier, rng):
         quick = tier == "quick"
+        self._rt = []
         # exhaustive: every mover cell x every action, small grids
         sizes = [(r, c) for r in range(1, 4 if quick else 5) for c in range(1, 5 if quick else 6)]
         for rows, cols in sizes:
@@ -176,6 +181,7 @@ class MoveProp(core.Prop):
                         try:
                             sess = MoveSession(d2)
                         except ValueError:
+                            gridw.STATS["illegal"] -= 1      # (the mover put on EVERY cell: some hold incompatible agents)
                             continue
                         pre0 = sess.w.dyn_wire()
                         for dr in range(-R, R + 1):
@@ -198,7 +204,10 @@ class MoveProp(core.Prop):
         for desc in _extreme_worlds(rng, 6 if quick else 60):
             try:
                 sess = MoveSession(desc)
-            except ValueError:
+            except ValueError as ex:
+                # these descriptions are legal by construction (every agent of the crowd may join the others): a grid
+                # that refuses to hold them is the failure
+                self._rt.append(("real code: a legal world could not be set up (%s)" % ex, desc))
                 continue
             pre0 = sess.w.dyn_wire()
             m = desc["mover"]
@@ -259,8 +268,9 @@ def _extreme_worlds(rng, count):
             rows, cols = rng.randint(1, 3), rng.randint(2, 3)
             pile = (rng.randrange(rows), rng.randrange(cols))
             free = [(r, c) for r in range(rows) for c in range(cols) if (r, c) != pile]
-            mpos = rng.choice(free)
-            odd = rng.random() < 0.3
+            near = [q for q in free if max(abs(q[0] - pile[0]), abs(q[1] - pile[1])) == 1]
+            mpos = rng.choice(near or free)               # next to the pile: one step joins it
+            odd = i % 4 == 2                              # (every second crowd holds one agent the mover may not join)
             agents = [mover] + [dict(gridw.AG_DEFAULT, enc=2) for _ in range(k)] + ([dict(gridw.AG_DEFAULT, enc=3)] if odd else [])
             overlap = [[1, [1, 2]], [2, [2, 3]]]           # 1 may join 2, not 3
             state = [one(mpos)] + [one(pile) for _ in range(k)] + ([one(pile)] if odd else [])
